@@ -406,16 +406,31 @@ func kindRange(k types.BasicKind) (lo, hi *big.Int) {
 
 // Fresh creates the next nondeterministic input of kind k.
 func (c *Ctx) Fresh(label string, k types.BasicKind) *Sym {
+	return c.freshRange(label, k, nil, nil)
+}
+
+// rawRange asserts lo <= t <= hi without interval-based folding (the interval of a variable is
+// only sound because this constraint is on the path condition).
+func (c *Ctx) rawRange(t *sym.Term, lo, hi *big.Int) {
+	c.addPC(c.B.App("and", sym.Bool, c.B.App("<=", sym.Bool, c.B.IntC(lo), t), c.B.App("<=", sym.Bool, t, c.B.IntC(hi))))
+}
+
+func (c *Ctx) freshRange(label string, k types.BasicKind, lo, hi *big.Int) *Sym {
 	name := fmt.Sprintf("n%d_%s", len(c.nondets), label)
 	so := c.sortOfKind(k)
-	t := c.B.Var(name, so)
-	if so.K == sym.KInt && t.Lo == nil {
-		t.Lo, t.Hi = kindRange(k)
+	if so.K == sym.KInt && lo != nil {
+		name += fmt.Sprintf("_%s_%s", strings.Replace(lo.String(), "-", "m", 1), strings.Replace(hi.String(), "-", "m", 1))
 	}
+	t := c.B.Var(name, so)
 	c.nondets = append(c.nondets, Nondet{Name: name, Kind: label, Term: t, GoK: k})
 	if so.K == sym.KInt {
-		// the variable ranges over the Go type
-		c.addPC(c.B.And(c.B.IntCmp("<=", c.B.IntC(t.Lo), t), c.B.IntCmp("<=", t, c.B.IntC(t.Hi))))
+		if lo == nil {
+			lo, hi = kindRange(k)
+		}
+		if t.Lo == nil {
+			t.Lo, t.Hi = lo, hi
+		}
+		c.rawRange(t, lo, hi)
 	}
 	return &Sym{T: t, K: k}
 }
@@ -426,9 +441,11 @@ func (c *Ctx) FreshInternal(label string, k types.BasicKind) *Sym {
 	name := fmt.Sprintf("aux%d_%d_%s", len(c.nondets), c.opaqueSeq, label)
 	so := c.sortOfKind(k)
 	t := c.B.Var(name, so)
-	if so.K == sym.KInt && t.Lo == nil {
-		t.Lo, t.Hi = kindRange(k)
-		c.addPC(c.B.And(c.B.IntCmp("<=", c.B.IntC(t.Lo), t), c.B.IntCmp("<=", t, c.B.IntC(t.Hi))))
+	if so.K == sym.KInt {
+		if t.Lo == nil {
+			t.Lo, t.Hi = kindRange(k)
+		}
+		c.rawRange(t, t.Lo, t.Hi)
 	}
 	return &Sym{T: t, K: k}
 }
